@@ -51,7 +51,8 @@ func determine(r klog.Record, b txt.Block) *style {
 			return nil
 		})
 	}
-	for _, l := range b.Lines() {
+	significantLines, _, _ := b.SignificantLines()
+	for _, l := range significantLines {
 		if l.Indentation() != "" {
 			s.indentation.Set(l.Indentation())
 			break
